@@ -162,11 +162,11 @@ class Variant:
             "defaults": self.defaults,
             "pools": self.pools,
             "stmts": [{
-                "outs": s.all_outs(), "phony": s.phony, "ex": s.ex, "im": s.im, "oo": s.oo, "val": s.val,
+                "outs": s.all_outs(), "phony": s.phony, "rule": "phony" if s.phony else "r%d" % i, "ex": s.ex, "im": s.im, "oo": s.oo, "val": s.val,
                 "cmd": command_of(s, by_out), "pool": s.pool, "restat": s.restat, "generator": s.generator,
                 "deps": s.deps, "depfile": (s.id + ".d") if s.depfile else "", "dyndep": s.dyndep,
                 "rspfile": s.rsp[0] if s.rsp else "", "rspfile_content": s.rsp[1] if s.rsp else "",
-            } for s in self.stmts],
+            } for i, s in enumerate(self.stmts)],
         }
 
 
@@ -183,6 +183,30 @@ def sources_of(variants, extra=()):
         if x not in src:
             src.append(x)
     return src
+
+
+def tool_op(kind, args=(), dry=False, verbose=False):
+    """-t clean / cleandead / read-only tools."""
+    fl = []
+    if dry:
+        fl.append("-n")
+    if verbose:
+        fl.append("-v")
+    if kind == "clean-all":
+        fl += ["-t", "clean"]
+    elif kind == "clean-all-g":
+        fl += ["-t", "clean", "-g"]
+    elif kind == "clean-targets":
+        fl += ["-t", "clean"] + list(args)
+    elif kind == "clean-rules":
+        fl += ["-t", "clean", "-r"] + list(args)
+    elif kind == "cleandead":
+        fl += ["-t", "cleandead"]
+    else:
+        fl += list(args)
+    op = {"op": "ninja", "flags": fl, "targets": [], "j": 1, "k": 1, "faults": {}, "tool": True, "tool_kind": kind,
+          "tool_args": list(args), "tool_dry": dry, "label": "ninja " + " ".join(fl), "subsets": False}
+    return op
 
 
 def ninja_op(targets=(), j=1, k=1, faults=None, label=None, interrupt=False, flags=(), env=None, edits_during=(),
